@@ -59,10 +59,11 @@ def limit_df(df, fs, start=None, stop=None, reset_indices=True):
 
     start = 0 if start is None else start
 
-    df = df[df['sample_last_' + side_e].values >= start*fs]
+    # Limits in samples, rounded to remove floating point error (e.g. 0.57 * 100 = 57.00000000000001)
+    df = df[df['sample_last_' + side_e].values >= np.round(start*fs, 6)]
 
     if stop is not None:
-        df = df[df['sample_next_' + side_e].values <= stop*fs]
+        df = df[df['sample_next_' + side_e].values <= np.round(stop*fs, 6)]
 
     # Shift sample indices to start at 0
     if reset_indices:
